@@ -79,8 +79,11 @@ def evsOfRpc (kind client cls : String) (cmd ans : List String) : List Ev :=
       | some p, some st, some mc =>
         let ok := answered && (ans.headD "") == "errs=-"
         let minResp := ((ans.getD 1 "").splitOn "=").getD 1 "0" |>.toNat? |>.getD 0
+        let acts : List (Bytes × Nat) := match parseMuts ms with
+          | some l => l.map fun (mu, a) => (mu.key, match a with | .doCheck => 1 | .doNotCheck => 2 | .skip => 0)
+          | none => []
         [Ev.prewrite client fate st p (parseMutTriples ms) mc ok minResp (onepcT == "onepc=1") (asyncT == "async=1")
-          ((tokVal "secondaries=" secT >>= parseHexList).getD [])]
+          ((tokVal "secondaries=" secT >>= parseHexList).getD []), Ev.prewriteActs client st acts]
       | _, _, _ => []
     | ["commit", ks, st, ct] =>
       match parseHexList ks, st.toNat?, ct.toNat? with
@@ -478,6 +481,12 @@ def step (j : JState) (line : String) : JState × String :=
           | "set", [k, v] =>
             match hx k, hx v with
             | some k, some v => if okRes then monEv { j1 with ownWrites := (st, k) :: j1.ownWrites } [.bufSet p.client st k v false] none else (j1, "ok")
+            | _, _ => (j1, "ok")
+          | "setlazy", [k, v] =>
+            match hx k, hx v with
+            -- (for the write-write oracle a lazily checked key counts like a locked one: its conflict check is made by the
+            --  prewrite against the for-update ts, not against the start ts)
+            | some k, some v => if okRes then monEv { j1 with ownWrites := (st, k) :: j1.ownWrites, pessLocked := (st, k) :: j1.pessLocked } [.bufSet p.client st k v false, .bufLazy p.client st k] none else (j1, "ok")
             | _, _ => (j1, "ok")
           | "insert", [k, v] =>
             match hx k, hx v with
